@@ -200,7 +200,21 @@ func checkC20(c *Ctx) {
 			"StoredData":  "API contract: SetStoredData is called between sessions, not concurrently with Sign (outside the property's quantifier)",
 		})
 		// O1: Init / SetShareData happen before publication of the RBC handler in the same continuation
-		for _, mu := range mapUpdatesOfField(t.fns, t.fRBCTab) {
+		// (a registration inside a helper shared by the sessions is judged at each call of the helper)
+		var pubs []ssa.Instruction
+		for _, mu0 := range mapUpdatesOfField(t.fns, t.fRBCTab) {
+			fn0 := mu0.Parent()
+			if helperCall(fn0) == nil && fn0.Parent() == nil {
+				if cs := staticCallsTo(t.fns, fn0); len(cs) >= 2 {
+					for _, c0 := range cs {
+						pubs = append(pubs, c0.(ssa.Instruction))
+					}
+					continue
+				}
+			}
+			pubs = append(pubs, mu0)
+		}
+		for _, mu := range pubs {
 			for _, name := range []string{"Init", "SetShareData"} {
 				var evs []ssa.Instruction
 				for _, ci := range invokesOf(t.fns, name) {
@@ -306,6 +320,13 @@ func checkC20(c *Ctx) {
 							if ci, isC := r.(ssa.CallInstruction); isC {
 								if o := calleeObj(ci.Common()); o != nil && o.Pkg() != nil && o.Pkg().Path() == "sync/atomic" {
 									ok = true
+								}
+							}
+							// the counter's address handed to an object of the package (a clock that ticks
+							// it): every use of the pointer field that holds it is a sync/atomic call
+							if st, isSt := r.(*ssa.Store); isSt && st.Val == ssa.Value(fa) {
+								if pfa, isFA := st.Addr.(*ssa.FieldAddr); isFA {
+									ok = pointerFieldOnlyAtomic(fns, fieldOfAddr(pfa))
 								}
 							}
 							c.Check(ok, A1, FuncName(fn), "access to Box."+n, m.Pos(r.Pos()), "through sync/atomic", "the epoch counter is read or written without sync/atomic while the clock goroutine increments it")
@@ -561,4 +582,50 @@ func ruleSerialisingWrappers(c *Ctx, rule string, t *thrModel) {
 			c.Bad(rule, name, "call into the wrapped "+inner.Name(), t.m.Pos(tn.Pos()), "the wrapper never calls the wrapped value")
 		}
 	}
+}
+
+// pointerFieldOnlyAtomic: pf is an unexported pointer-typed field; everywhere in fns its value is
+// loaded only to be passed to sync/atomic functions (and it is stored only by composite literals /
+// plain stores of an address): the pointee is accessed atomically through it.
+func pointerFieldOnlyAtomic(fns []*ssa.Function, pf *types.Var) bool {
+	if pf.Exported() {
+		return false
+	}
+	if _, isPtr := pf.Type().Underlying().(*types.Pointer); !isPtr {
+		return false
+	}
+	n := 0
+	for _, fn := range fns {
+		for _, in := range instrsOf(fn) {
+			var loaded ssa.Value
+			switch x := in.(type) {
+			case *ssa.UnOp:
+				if fa, ok := x.X.(*ssa.FieldAddr); ok && x.Op == token.MUL && fieldOfAddr(fa) == pf {
+					loaded = x
+				}
+			case *ssa.Field:
+				if st, ok := x.X.Type().Underlying().(*types.Struct); ok && x.Field < st.NumFields() && st.Field(x.Field) == pf {
+					loaded = x
+				}
+			}
+			if loaded == nil || loaded.Referrers() == nil {
+				continue
+			}
+			for _, r := range *loaded.Referrers() {
+				if _, isD := r.(*ssa.DebugRef); isD {
+					continue
+				}
+				ci, isC := r.(ssa.CallInstruction)
+				if !isC {
+					return false
+				}
+				o := calleeObj(ci.Common())
+				if o == nil || o.Pkg() == nil || o.Pkg().Path() != "sync/atomic" {
+					return false
+				}
+				n++
+			}
+		}
+	}
+	return n > 0
 }
